@@ -19,6 +19,7 @@ mod parse_engine;
 mod series_engine;
 mod wsgen;
 mod push_engine;
+mod diff_engine;
 
 use std::io::Write;
 
@@ -44,13 +45,15 @@ fn main() {
     let seed: u64 = opts.get("seed").and_then(|s| s.parse().ok()).unwrap_or(1);
     let n: usize = opts.get("n").and_then(|s| s.parse().ok()).unwrap_or(1000);
     let engine = args[1].as_str();
-    if engine.starts_with("push") {
+    if engine.starts_with("push") || engine.starts_with("diff") {
         // engines that run the whole tool: its stdout/stderr chatter must not mix with the protocol
         let f = push_engine::steal_stdout();
         let mut out = std::io::BufWriter::new(f);
         match engine {
             "push" => push_engine::run(&mut out, seed, n, &opts),
             "push-replay" => push_engine::replay(&mut out, &opts),
+            "diff" => diff_engine::run(&mut out, seed, n, &opts),
+            "diff-replay" => diff_engine::replay(&mut out, &opts),
             "pushsched" => push_engine::run_sched(&mut out, seed, n, &opts),
             "pushfault" => push_engine::run_faults(&mut out, seed, n, &opts),
             "pushfault-replay" => push_engine::replay_faults(&mut out, &opts),
